@@ -173,3 +173,33 @@ INSTANCES.update({
     "time_lc5": (dict(INSTANCES["lc5"][0], op_sleep_us=150), "terminal", {}),
     "time_att4": (dict(INSTANCES["att4"][0], op_sleep_us=150), "terminal", {}),
 })
+
+# ---------------- adapters (C13, C14)
+def pollinst(kinds, **kw):
+    d = dict(threads=[1], born=[1], K=8, menu=["root", "child", "fnew", "fpoll", "fdrop", "ctxl", "drop"], MaxOps=5, MaxSpans=2, MaxRoots=1,
+             MaxFuts=1, MaxPolls=3, adapters=kinds, inner=["none", "ls", "ev", "ctx"], MaxCycles=2)
+    d.update(kw)
+    return d
+
+
+INSTANCES.update({
+    "poll_fut_c": (pollinst(["fut"], cancelable=True), "terminal", {}),
+    "poll_fut_d": (pollinst(["fut"]), "terminal", {}),
+    "poll_fut2_c": (pollinst(["fut"], cancelable=True, threads=[1, 2], born=[1, 2], MaxOps=4, inner=["none", "ls"], trackcut=True), "terminal", {}),
+    "poll_eop": (pollinst(["eop"], menu=["root", "setlp", "dropg", "fnew", "fpoll", "fdrop", "ctxl", "drop"], MaxScopes=1), "terminal", {}),
+    "poll_str_c": (pollinst(["str"], cancelable=True), "terminal", {}),
+    "poll_snk_c": (pollinst(["snk"], cancelable=True, MaxPolls=4), "terminal", {}),
+    "poll_ss_d": (pollinst(["str", "snk"], MaxOps=4), "terminal", {}),
+})
+
+# C16: built without the `enable` feature
+INSTANCES.update({
+    "disabled4": (seq(["root", "child", "child2", "childl", "setlp", "dropg", "lenter", "lexit", "levent", "lprops", "lwith", "sprops", "swith", "sevent",
+                       "cancel", "ctxl", "ctxs", "drop", "lcstart", "lccollect", "pushc"], MaxOps=4, MaxSpans=3, MaxAtt=3, MaxCycles=0, MaxLs=1,
+                      enabled=False), "terminal", {}),
+})
+
+INSTANCES.update({
+    "poll_fut6_c": (pollinst(["fut"], cancelable=True, MaxOps=6, MaxPolls=4), "terminal", {}),
+    "poll_ss6_c": (pollinst(["str", "snk"], cancelable=True, MaxOps=6, MaxPolls=4), "terminal", {}),
+})
